@@ -68,7 +68,9 @@ def struct_asserts(case, k, uri2mod):
 def send_asserts(case, k, obs):
     """module text asserting Send/Sync of every envelope type and Send of every client future"""
     lines = ["#![allow(dead_code, unused_variables, non_snake_case)]\nfn assert_send<T: Send>(_: T) {}\nfn assert_send_sync<T: Send + Sync>() {}\n"]
-    n = 0
+    # the shared-reference helper of the fixed runtime is Send + Sync whenever its content is (it "uses Arc")
+    lines.append(f"fn multi_ref() {{\n    assert_send_sync::<crate::g{k}::multi_ref::MultiRef<String>>();\n    assert_send_sync::<crate::g{k}::multi_ref::MultiRef<Vec<i64>>>();\n}}\n")
+    n = 1
     envs = sorted({s["name"] for s in obs["structs"] if s["mod"] == "-" and ("InputEnvelope" in s["name"] or "OutputEnvelope" in s["name"])})
     if envs:
         lines.append("fn envelopes() {\n" + "".join(f"    assert_send_sync::<crate::g{k}::{e}>();\n" for e in envs) + "}\n")
